@@ -215,7 +215,10 @@ func drawMux(ch *Chooser, tier string) []RouteSpec {
 		rs = append(rs, r)
 	}
 	// the last one or two routes may be registered later, on the live mux
-	if len(rs) > 0 && ch.Choose(4) == 3 {
+	if ch.Choose(3) == 2 {
+		if ch.Choose(2) == 1 {
+			rs = append(rs, RouteSpec{Kind: []string{"extended", "extended", "bind", "add"}[ch.Choose(4)], ExtName: muxExt[ch.Choose(len(muxExt))], Label: fmt.Sprintf("r%d", len(rs))})
+		}
 		for i, k := len(rs)-1, 1+ch.Choose(2); i >= 0 && k > 0; i, k = i-1, k-1 {
 			rs[i].Late = true
 		}
